@@ -8,7 +8,7 @@ import warnings
 
 from hypothesis import strategies as st
 
-from ..common import VERSIONS, crash_signature, digest, grammar, has_error, leaf_starting_at, nodes_preorder, short
+from ..common import VERSIONS, aborted, case_int, maybe_disturb, crash_signature, digest, grammar, has_error, leaf_starting_at, nodes_preorder, short
 from ..engine import Outcome, Prop
 from ..gen import text as T
 from ..gen import valid as V
@@ -415,6 +415,7 @@ class C14(Prop):
                 if not o.ask(op='compile', src=code).get('ok'):
                     return Outcome(excluded='CPython %s rejects (cross-grammar case)' % mm)
         g = grammar(gv)
+        maybe_disturb(g, code, gv)      # process history: an unfinished earlier call must not matter
         try:
             m = g.parse(code)
         except RecursionError:
@@ -422,6 +423,13 @@ class C14(Prop):
         if has_error(m):
             return Outcome(excluded='parso has error nodes (outside the statement)')
         try:
+            h = case_int(code, gv, 'c14')
+            if h % 4 == 0:
+                # the same questions asked before, but interrupted at the n-th library line: the tree is used again afterwards
+                try:
+                    aborted(lambda: compare(code, m, facts), 3 + (h >> 4) % 600)
+                except Skip:
+                    pass
             fail, info = compare(code, m, facts)
         except Skip as e:
             return Outcome(excluded='skipped: %s' % e)
